@@ -6,6 +6,10 @@ commits = subprocess.run(["git","-C","/repo","log","--format=%H %s"],capture_out
 hook_commits = [c.split()[0] for c in commits if c.split(" ",1)[1].startswith("verif:")]
 
 CLAIMED = {
+ "C12": dict(
+   text="The record type Mlrmap (doubly-linked list + optional hash index) is verified against an abstract view kept in ghost state (seq: the sequence of entries, idx: the position of an entry): every list operation the restructuring verbs are built from - linkNewEntry, linkAtHead/Tail, Unlink, findEntry (three branches), buildIndex, Has, Get, PutReference (existing field keeps its position, new field is appended), PrependReference, Remove, pop, MoveToHead/Tail, Rename (three cases + identity), findEntryByPositionalIndex, RemoveWithPositionalIndex, Clear - has a contract 'requires well-formed, ensures well-formed and the view changes in closed form', with whole-view postconditions (every other entry keeps pointer identity, name, value and relative order), key uniqueness and the no-stale-key / every-field-indexed index invariant. Loops over the list carry invariants tied to the ghost position and a decreases clause.",
+   note="Not under contract: the verbs themselves (pkg/transformers: cut, reorder, template, regularize, unsparsify, nest, reshape, ...; they need the emptied parser to compile and were not reached), PutCopy/PutReferenceAfter, Label, SortByKey, flatten/unflatten inverse laws. PutNameWithPositionalIndex is under contract but its invariant obligation does not discharge within the budget (unclaimed). Copy() trusted.",
+   ref="DESIGN.md §3.C12"),
  "C03": dict(
    text="The pass-through guarantee is reduced to a frame condition on the value representation and proved function by function: every inferrer (default, -O, -A, -S), the three Set* setters they use, Type(), String(), OriginalString(), StringMaybeQuoted(), GetTypeName/GetTypeBit and setPrintRep keep the original text byte for byte (printrep unchanged and still valid) and touch no other value; String() returns exactly that text unless --ofmt is set and the value is a float (the documented exception, stated literally in the contract).",
    note="Assumed: FormatAsJSON (collections) and Copy are trusted contracts; the --ofmt formatter is an interface-level assumed contract; that each verb/DSL node reaches field values only through these functions (read-only API) is NOT checked (no call-graph frame sweep was built); JSON/YAML re-rendering of non-JSON numerals (marshalJSON*) is not under contract.",
